@@ -43,6 +43,17 @@ import Tie.Excerpt
 #print axioms Sourcer.C14_eq_implies_hash_eq
 #print axioms Sourcer.C14_asdict_order
 #print axioms Sourcer.C14_replace
+#print axioms Sourcer.C15_visit_eq_first_occurrence_preorder
+#print axioms Sourcer.C15_visit_at_most_once
+#print axioms Sourcer.C15_visit_complete
+#print axioms Sourcer.C15_traverse_events
+#print axioms Sourcer.C15_traverse_brackets
+#print axioms Sourcer.C16_once_per_node
+#print axioms Sourcer.C16_bottom_up
+#print axioms Sourcer.C16_identity
+#print axioms Sourcer.C16_metadata
+#print axioms Sourcer.C16_copy_keeps_metadata
+#print axioms Sourcer.C16_leaves_and_lists
 #print axioms Tie.implFlags_sound -- module Tie.Flags
 #print axioms Tie.impl_refines -- module Tie.Flags
 #print axioms Tie.map_index_eq -- module Tie.Excerpt
